@@ -32,6 +32,8 @@ pub enum Case {
     FloatWord { single: bool, word: String },
     BoolLit { lit: String },
     BoolWord { word: String },
+    /// character data built by device code (any bytes) read as bool (0) / f32 (1) / f64 (2)
+    WordBytes { target: u8, bytes: Vec<u8> },
     Matrix { target: Target, kind: Kind, text: Vec<u8>, suffix: String, value: u64 },
 }
 
@@ -42,7 +44,7 @@ pub enum Case {
 /// so that the search goes on; the campaign `compact-long-f64-literals` reports it.
 fn is_kf2(lit: &str, ulps_off: i64, finite: bool) -> bool {
     let sig = lit.split(['e', 'E']).next().unwrap_or("").bytes().filter(|c| c.is_ascii_digit()).skip_while(|c| *c == b'0').count();
-    crate::engine::ALT_CONFIG && sig >= 20 && finite && ulps_off.abs() == 1
+    (crate::engine::ALT_CONFIG || crate::engine::MIN_CONFIG) && sig >= 20 && finite && ulps_off.abs() == 1
 }
 
 fn check_float(single: bool, lit: &str, halfway: bool, obs: &Obs, key: &Case) -> CheckResult {
@@ -285,6 +287,25 @@ pub fn check(case: &Case, obs: &Obs) -> CheckResult {
         Case::FloatWord { single, word } => check_float_word(*single, word, obs, case),
         Case::BoolLit { lit } => check_bool_lit(lit, obs, case),
         Case::BoolWord { word } => check_bool_word(word, obs, case),
+        Case::WordBytes { target, bytes } => match (std::str::from_utf8(bytes), target) {
+            (Ok(w), 0) if bytes.is_ascii() => check_bool_word(w, obs, case),
+            (Ok(w), t) if bytes.is_ascii() => check_float_word(*t == 1, w, obs, case),
+            _ => {
+                // a byte above 0x7F is in no keyword
+                obs.label("keyword candidate with a non-ASCII byte");
+                obs.nontrivial(case);
+                let tok = Token::CharacterProgramData(bytes);
+                let accepted = match target {
+                    0 => bool::try_from(tok).map(|v| v.to_string()).ok(),
+                    1 => f32::try_from(tok).map(|v| format!("{v:e}")).ok(),
+                    _ => f64::try_from(tok).map(|v| format!("{v:e}")).ok(),
+                };
+                if let Some(v) = accepted {
+                    fail!("keyword-accepted", "{} from character datum {:?} = Ok({v}); not a keyword", ["bool", "f32", "f64"][*target as usize % 3], crate::bytes::escape(bytes));
+                }
+                Ok(())
+            }
+        },
         Case::Matrix { target, kind, text, suffix, value } => check_matrix(*target, *kind, text, suffix, *value, obs, case),
     }
 }
@@ -697,6 +718,28 @@ fn run(e: &Engine) {
     if e.tier == crate::engine::Tier::Thorough {
         e.fuzz("fuzz-c08_dec", "c08_dec", 64_000_000, |b| decode_text(b).unwrap_or(Case::BoolLit { lit: "0".into() }), check);
     }
+    // every keyword form with EVERY byte value substituted at / inserted before every position
+    {
+        let mut sweep: Vec<Case> = Vec::new();
+        let forms: [&[u8]; 13] = [b"INF", b"INFINITY", b"NINF", b"NINFINITY", b"NAN", b"MAX", b"MAXIMUM", b"MIN", b"MINIMUM", b"ON", b"OFF", b"inf", b"on"];
+        for form in forms {
+            for pos in 0..=form.len() {
+                for b in 0u16..256 {
+                    for insert in [false, true] {
+                        if !insert && pos == form.len() {
+                            continue;
+                        }
+                        let mut t = form.to_vec();
+                        if insert { t.insert(pos, b as u8) } else { t[pos] = b as u8 }
+                        for target in 0u8..3 {
+                            sweep.push(Case::WordBytes { target, bytes: t.clone() });
+                        }
+                    }
+                }
+            }
+        }
+        e.fixed("every-keyword-every-byte-substituted", sweep, check);
+    }
     // bounded-exhaustive: EVERY letter string up to a length as a character datum for bool, f32, f64
     const LETTERS: &[u8] = b"ABCDEFGHIJKLMNOPQRSTUVWXYZ";
     let kw = crate::gen::enumstr::Partitioned { alpha: LETTERS, max_len: if cfg!(debug_assertions) { e.tier.pick(3usize, 4) } else { e.tier.pick(5usize, 6) }, prefix_len: 2 };
@@ -721,7 +764,7 @@ fn run(e: &Engine) {
         check,
     );
     // the known-finding class KF2 is reported only here (alternative configuration only)
-    if crate::engine::ALT_CONFIG {
+    if crate::engine::ALT_CONFIG || crate::engine::MIN_CONFIG {
         let lits32 = ["0.00000000000000000000010587911525134392149949309093804098412527903150248675956390798091888427734375"];
         let lits = ["109372556475.755500794", "109286876.920048169799559432", "113577763.83408979329", "1223372066.6119614839718839206", "155.67308178993812799467744528812e7", "106418908903974004098.e-12"];
         e.fixed("compact-long-literals", lits.iter().map(|l| Case::Float { single: false, lit: l.to_string(), halfway: false }).chain(lits32.iter().map(|l| Case::Float { single: true, lit: l.to_string(), halfway: true })).collect(), |c: &Case, obs: &Obs| match c {
